@@ -160,6 +160,24 @@ Definition asgl (l : list stmt) : list str := flat_map asg l.
 Definition step_free (B : kctx) (body : list stmt) (e : expr) : bool :=
   forallb (fun y => mem_str y (map fst B) || negb (mem_str y (asgl body))) (used_e e).
 
+(* x is not mentioned in e: not as a variable, not as a free variable of a function literal *)
+Fixpoint nm (x : str) (e : expr) {struct e} : bool :=
+  let fix go (l : list expr) : bool := match l with [] => true | a :: l => nm x a && go l end in
+  match e with
+  | EVar y => negb (str_eqb y x)
+  | EBin _ a b | EAnd a b | EOr a b | ENilOr a b => nm x a && nm x b
+  | ENot a | ENeg a | EGet a _ => nm x a
+  | ECall f l => nm x f && go l
+  | ESelf l => go l
+  | EFn ps body => negb (mem_str x (free_vars ps body))
+  | _ => true
+  end.
+Definition nml (x : str) (l : list expr) : bool := forallb (nm x) l.
+Lemma nm_ECall : forall x f l, nm x (ECall f l) = nm x f && nml x l.
+Proof. reflexivity. Qed.
+Lemma nm_ESelf : forall x l, nm x (ESelf l) = nml x l.
+Proof. reflexivity. Qed.
+
 Definition kres := option (kctx * list kind).       (* the locals afterwards, the kinds of the values returned *)
 
 Definition sfk := option (list kind * kind).     (* inside a function: the kinds of its parameters and of its result (for self(..)) *)
@@ -256,9 +274,9 @@ with kstmt (SF : sfk) (il : bool) (B CD : kctx) (s : stmt) {struct s} : kres :=
     match name, collide with
     | Some x, false =>   (* a fresh counter: a variable of the enclosing block for the duration of the loop *)
       (* the VM binds the counter before it evaluates the upper bound: either that one is call-free and does not mention x, or no
-         captured variable is called x *)
+         captured variable is called x, or the bound does not mention x (as a variable or as a free variable of a literal) *)
       if is_KD (kexpr SF B CD a) && is_KD (kexpr SF B CD b) && src_nameb x && negb (mem_str x (map fst B)) &&
-         (ok_dexpr B CD b && negb (mem_str x (used_e b)) || negb (mem_str x (map fst CD))) &&
+         (ok_dexpr B CD b && negb (mem_str x (used_e b)) || negb (mem_str x (map fst CD)) || nm x b) &&
          kstep ((x, KD) :: B) then
         match kb true ((x, KD) :: B) body with Some (_, r) => Some (B, r) | None => None end
       else None
@@ -372,6 +390,89 @@ Proof.
       destruct (nodupb ps && forallb src_nameb ps && forallb (ret_ok (rkind body rets0)) rets); reflexivity.
 Qed.
 
+(* ---- a captured name that an expression does not mention (not as a variable, not as a free variable of a function literal)
+   can be left out of the captured context *)
+Definition remove_key (x : str) (CD : kctx) : kctx := filter (fun p => negb (str_eqb (fst p) x)) CD.
+Lemma assoc_remove_key : forall x CD y, assoc y (remove_key x CD) = if str_eqb y x then None else assoc y CD.
+Proof.
+  intros x CD y. unfold remove_key. induction CD as [|[z k] t IH]; [now destruct (str_eqb y x)|]. cbn [filter fst].
+  destruct (str_eqb z x) eqn:Ezx; cbn [negb assoc].
+  - rewrite IH. apply str_eqb_iff in Ezx. subst z. destruct (str_eqb y x) eqn:Eyx; [reflexivity|].
+    destruct (str_eqb x y) eqn:Exy; [apply str_eqb_iff in Exy; subst y; now rewrite str_eqb_refl in Eyx|reflexivity].
+  - destruct (str_eqb z y) eqn:Ezy.
+    + apply str_eqb_iff in Ezy. subst z. now rewrite Ezx.
+    + exact IH.
+Qed.
+Lemma remove_key_id : forall x CD, ~ In x (map fst CD) -> remove_key x CD = CD.
+Proof.
+  intros x CD. unfold remove_key. induction CD as [|[z k] t IH]; intros H; [reflexivity|]. cbn [filter fst map In] in *.
+  rewrite str_eqb_neq by (intros E; apply H; now left). cbn [negb]. rewrite IH; [reflexivity|]. intros Hi. apply H. now right.
+Qed.
+Lemma assoc_remove_key_same : forall x CD, assoc x (remove_key x CD) = None.
+Proof. intros. now rewrite assoc_remove_key, str_eqb_refl. Qed.
+Lemma assoc_remove_key_sub : forall x CD y k, assoc y (remove_key x CD) = Some k -> assoc y CD = Some k.
+Proof. intros x CD y k H. rewrite assoc_remove_key in H. destruct (str_eqb y x); [discriminate|exact H]. Qed.
+Lemma kvar_remove_key : forall x B CD y, y <> x -> kvar B (remove_key x CD) y = kvar B CD y.
+Proof. intros x B CD y Hne. unfold kvar. rewrite assoc_remove_key, str_eqb_neq by exact Hne. reflexivity. Qed.
+
+Lemma nm_used : forall x e, pure e = true -> nm x e = true -> ~ In x (used_e e).
+Proof.
+  intros x. induction e; intros Hp Hn; cbn [pure] in Hp; try discriminate; cbn [used_e nm] in *; try (intros Hi; exact Hi).
+  - intros [->|[]]. rewrite str_eqb_refl in Hn. discriminate.
+  - apply andb_true_iff in Hp as [P1 P2]. apply andb_true_iff in Hn as [N1 N2]. intros Hi. apply in_app_or in Hi as [Hi|Hi]; [exact (IHe1 P1 N1 Hi)|exact (IHe2 P2 N2 Hi)].
+  - apply andb_true_iff in Hp as [P1 P2]. apply andb_true_iff in Hn as [N1 N2]. intros Hi. apply in_app_or in Hi as [Hi|Hi]; [exact (IHe1 P1 N1 Hi)|exact (IHe2 P2 N2 Hi)].
+  - apply andb_true_iff in Hp as [P1 P2]. apply andb_true_iff in Hn as [N1 N2]. intros Hi. apply in_app_or in Hi as [Hi|Hi]; [exact (IHe1 P1 N1 Hi)|exact (IHe2 P2 N2 Hi)].
+  - exact (IHe Hp Hn).
+  - exact (IHe Hp Hn).
+  - apply andb_true_iff in Hp as [P1 P2]. apply andb_true_iff in Hn as [N1 N2]. intros Hi. apply in_app_or in Hi as [Hi|Hi]; [exact (IHe1 P1 N1 Hi)|exact (IHe2 P2 N2 Hi)].
+  - exact (IHe Hp Hn).
+Qed.
+Lemma forallb_ext_in : forall A (f g : A -> bool) l, (forall y, In y l -> f y = g y) -> forallb f l = forallb g l.
+Proof. intros A f g. induction l as [|a l IH]; intros H; [reflexivity|]. cbn [forallb]. rewrite (H a (or_introl eq_refl)), IH; [reflexivity|]. intros y Hy. apply H. now right. Qed.
+Lemma ok_dexpr_remove_key : forall x B CD e, nm x e = true -> ok_dexpr B (remove_key x CD) e = ok_dexpr B CD e.
+Proof.
+  intros x B CD e Hn. unfold ok_dexpr. destruct (pure e) eqn:Hp; [|reflexivity]. f_equal.
+  apply forallb_ext_in. intros y Hy. rewrite kvar_remove_key; [reflexivity|]. intros ->. exact (nm_used x e Hp Hn Hy).
+Qed.
+Lemma capctx_remove_key : forall x B CD ns, ~ In x ns -> capctx B (remove_key x CD) ns = capctx B CD ns.
+Proof.
+  intros x B CD. induction ns as [|n ns IH]; intros Hn; [reflexivity|]. cbn [capctx].
+  rewrite kvar_remove_key by (intros ->; apply Hn; now left). rewrite IH by (intros Hi; apply Hn; now right). reflexivity.
+Qed.
+Lemma kexpr_remove_key : forall x e SF B CD, nm x e = true -> kexpr SF B (remove_key x CD) e = kexpr SF B CD e.
+Proof.
+  Local Ltac kx := match goal with |- kexpr ?SF ?B (remove_key ?x ?CD) ?e = _ => rewrite (kexpr_eq SF B (remove_key x CD) e), (kexpr_eq SF B CD e) end.
+  intros x. apply (expr_ind' (fun e => forall SF B CD, nm x e = true -> kexpr SF B (remove_key x CD) e = kexpr SF B CD e) (fun _ => True));
+    try (intros; exact Logic.I).
+  - intros z SF B CD Hn. kx. rewrite ok_dexpr_remove_key by exact Hn. reflexivity.
+  - intros b SF B CD Hn. kx. rewrite ok_dexpr_remove_key by exact Hn. reflexivity.
+  - intros s SF B CD Hn. kx. rewrite ok_dexpr_remove_key by exact Hn. reflexivity.
+  - intros SF B CD Hn. kx. rewrite ok_dexpr_remove_key by exact Hn. reflexivity.
+  - intros y SF B CD Hn. kx. rewrite ok_dexpr_remove_key by exact Hn. cbn [nm] in Hn. apply negb_true_iff in Hn.
+    rewrite kvar_remove_key; [reflexivity|]. intros ->. rewrite str_eqb_refl in Hn. discriminate.
+  - intros o a b IHa IHb SF B CD Hn. kx. rewrite ok_dexpr_remove_key by exact Hn. cbn [nm] in Hn. apply andb_true_iff in Hn as [N1 N2]. now rewrite IHa, IHb.
+  - intros a b IHa IHb SF B CD Hn. kx. rewrite ok_dexpr_remove_key by exact Hn. cbn [nm] in Hn. apply andb_true_iff in Hn as [N1 N2]. now rewrite IHa, IHb.
+  - intros a b IHa IHb SF B CD Hn. kx. rewrite ok_dexpr_remove_key by exact Hn. cbn [nm] in Hn. apply andb_true_iff in Hn as [N1 N2]. now rewrite IHa, IHb.
+  - intros a IHa SF B CD Hn. kx. rewrite ok_dexpr_remove_key by exact Hn. cbn [nm] in Hn. now rewrite IHa.
+  - intros a IHa SF B CD Hn. kx. rewrite ok_dexpr_remove_key by exact Hn. cbn [nm] in Hn. now rewrite IHa.
+  - intros f l IHf IHl SF B CD Hn. kx. rewrite ok_dexpr_remove_key by exact Hn. rewrite nm_ECall in Hn. apply andb_true_iff in Hn as [N1 N2].
+    assert (Hl : kargs SF B (remove_key x CD) l = kargs SF B CD l).
+    { clear -IHl N2. induction l as [|a l IH]; [reflexivity|]. cbn [nml forallb] in N2. apply andb_true_iff in N2 as [Na Nl].
+      inversion IHl; subst. cbn [kargs]. rewrite (H1 SF B CD Na), (IH H2 Nl). reflexivity. }
+    destruct f; try reflexivity. cbn [nm] in N1. apply negb_true_iff in N1.
+    rewrite kvar_remove_key, Hl; [reflexivity|]. intros ->. rewrite str_eqb_refl in N1. discriminate.
+  - intros l IHl SF B CD Hn. kx. rewrite ok_dexpr_remove_key by exact Hn. rewrite nm_ESelf in Hn.
+    assert (Hl : kargs SF B (remove_key x CD) l = kargs SF B CD l).
+    { clear -IHl Hn. induction l as [|a l IH]; [reflexivity|]. cbn [nml forallb] in Hn. apply andb_true_iff in Hn as [Na Nl].
+      inversion IHl; subst. cbn [kargs]. rewrite (H1 SF B CD Na), (IH H2 Nl). reflexivity. }
+    now rewrite Hl.
+  - intros ps body _ SF B CD Hn. kx. rewrite ok_dexpr_remove_key by exact Hn. cbn [nm] in Hn. apply negb_true_iff in Hn.
+    unfold kfn. rewrite capctx_remove_key; [reflexivity|]. intros Hi. apply In_mem_str in Hi. congruence.
+  - intros a b IHa IHb SF B CD Hn. kx. rewrite ok_dexpr_remove_key by exact Hn. cbn [nm] in Hn. apply andb_true_iff in Hn as [N1 N2]. now rewrite IHa, IHb.
+  - intros a sp IHa SF B CD Hn. kx. rewrite ok_dexpr_remove_key by exact Hn. cbn [nm] in Hn. now rewrite IHa.
+Qed.
+
+
 Lemma kstmt_SIf : forall SF il B CD c body, kstmt SF il B CD (SIf c body) =
   if is_KD (kexpr SF B CD c) then match kblock SF il B CD body with Some (_, r) => Some (B, r) | None => None end else None.
 Proof. intros. cbn [kstmt]. now rewrite kblock_fix. Qed.
@@ -400,7 +501,7 @@ Lemma kstmt_SFrom : forall SF il B CD a b incl step name collide body, kstmt SF 
   match name, collide with
   | Some x, false =>
     if is_KD (kexpr SF B CD a) && is_KD (kexpr SF B CD b) && src_nameb x && negb (mem_str x (map fst B)) &&
-       (ok_dexpr B CD b && negb (mem_str x (used_e b)) || negb (mem_str x (map fst CD))) &&
+       (ok_dexpr B CD b && negb (mem_str x (used_e b)) || negb (mem_str x (map fst CD)) || nm x b) &&
        kstep SF ((x, KD) :: B) CD body step then
       match kblock SF true ((x, KD) :: B) CD body with Some (_, r) => Some (B, r) | None => None end
     else None
